@@ -25,8 +25,10 @@ def gen_schedule(rng, length):
             ev.append(["d", "c2s", rng.choice([1, 2, 3, 7, 20, 64, None, None]), 0])
         elif r < 0.99:
             ev.append(["d", "s2c", rng.choice([1, 2, 3, 7, 20, 64, None, None]), 0])
-        else:
+        elif r < 0.995:
             ev.append(["c", "unbind", 0])
+        else:
+            ev.append(["c", "bind-unencodable", rng.getrandbits(32)])
     # flush
     for _ in range(3):
         ev.append(["d", "c2s", None, 0])
@@ -51,6 +53,23 @@ def execute(schedule):
             if c.state.name == "CLOSED":
                 continue
             rng = random.Random(ev[2])
+            if ev[1] == "bind-unencodable":
+                # text that has no UTF-8 form (PEP 383 surrogates from argv / environ): the call must be refused with
+                # no effect at all - if it is accepted the peer is sent octets it rejects
+                norm = lambda p: [2 if p[0] == 0 else p[0], p[1]]  # noqa: E731  not-yet-opened and opened alike (C11)
+                before = norm(sessions.probe(c))
+                pw = rng.choice(["s3cr\udce9t", "\udcff", "pass\ud800word"])
+                try:
+                    if rng.random() < 0.5:
+                        c.bind_simple("cn=x", pw)
+                    else:
+                        c.bind_simple("cn=" + pw, "pw")
+                    problems.append("a bind whose text cannot be encoded was accepted")
+                except BaseException:  # noqa: BLE001
+                    if norm(sessions.probe(c)) != before:
+                        problems.append("a bind refused for unencodable text changed the session")
+                c2s += c.data_to_send()
+                continue
             if ev[1] == "bind":
                 call = [C_BIND, msgs.g_text(rng), msgs.g_cred(rng), msgs.g_controls(rng) if rng.random() < 0.3 else []]
                 op = [0, 3, call[1], call[2]]
